@@ -1,0 +1,13 @@
+//go:build verif
+
+// Read-only access to the USE dependencies a DependAtom keeps, for the verification harness
+// (property C14).  Compiled only with -tags verif.
+
+package depend
+
+import "potano.layercake/portage/atom"
+
+// VerifUseDependencies returns the (interned) USE dependencies of the atom.
+func (da *DependAtom) VerifUseDependencies() atom.UseDependencies {
+	return da.useDependencies
+}
